@@ -91,6 +91,11 @@ type indexer struct {
 	compactionMutex sync.Mutex
 	rwmutex         sync.RWMutex
 
+	// bulkMutex serialises bulk preparation and insertion (the tx holder and
+	// the entries buffer are shared) and is held while the index is replaced
+	// by a restart; it is always taken before rwmutex
+	bulkMutex sync.Mutex
+
 	metricsLastCommittedTrx prometheus.Gauge
 	metricsLastIndexedTrx   prometheus.Gauge
 }
@@ -409,13 +414,17 @@ func (idx *indexer) resume() {
 	idx.stateCond.L.Lock()
 	idx.state = running
 	idx.ctx, idx.cancelFunc = context.WithCancel(context.Background())
-	go idx.doIndexing()
+	go idx.doIndexing(idx.ctx)
 	idx.stateCond.L.Unlock()
 
 	idx.store.notify(Info, true, "indexing in progress at '%s'", idx.store.path)
 }
 
 func (idx *indexer) restartIndex() error {
+	// wait for the bulk in progress, if any, and keep indexing out
+	idx.bulkMutex.Lock()
+	defer idx.bulkMutex.Unlock()
+
 	idx.rwmutex.Lock()
 	defer idx.rwmutex.Unlock()
 
@@ -427,6 +436,8 @@ func (idx *indexer) restartIndex() error {
 	defer idx.resume()
 
 	opts := idx.index.GetOptions()
+
+	prevTs := idx.index.Ts()
 
 	err := idx.index.Close()
 	if err != nil {
@@ -440,7 +451,29 @@ func (idx *indexer) restartIndex() error {
 
 	idx.index = index
 
-	return err
+	// the compacted index was dumped from an older snapshot: the transactions
+	// indexed meanwhile are indexed again before readers are let in, so that
+	// the index never goes back in time
+	for idx.index.Ts() < prevTs {
+		err = idx.indexBulkSince(idx.index.Ts()+1, true)
+		if err != nil {
+			break
+		}
+	}
+
+	if err != nil {
+		idx.store.logger.Warningf("%v: while re-indexing after compaction of index '%s'", err, idx.store.path)
+
+		// readers have to wait for the indexing to catch up
+		if idx.wHub != nil {
+			doneUpto, _, herr := idx.wHub.Status()
+			if herr == nil && doneUpto > idx.index.Ts() {
+				idx.wHub.RecedeTo(idx.index.Ts())
+			}
+		}
+	}
+
+	return nil
 }
 
 func (idx *indexer) Resume() {
@@ -456,13 +489,23 @@ func (idx *indexer) Pause() {
 	idx.stateCond.L.Unlock()
 }
 
-func (idx *indexer) doIndexing() {
+// doIndexing runs until ctx, the context of this run (see resume), is cancelled
+func (idx *indexer) doIndexing(ctx context.Context) {
 	committedTxID := idx.store.LastCommittedTxID()
 	idx.metricsLastCommittedTrx.Set(float64(committedTxID))
 
 	var errBackoff time.Duration
 
 	for {
+		// a run that has been stopped must neither read the index that
+		// replaced its own nor publish progress on its behalf
+		idx.rwmutex.RLock()
+
+		if ctx.Err() != nil {
+			idx.rwmutex.RUnlock()
+			return
+		}
+
 		lastIndexedTx := idx.index.Ts()
 		idx.metricsLastIndexedTrx.Set(float64(lastIndexedTx))
 
@@ -470,10 +513,12 @@ func (idx *indexer) doIndexing() {
 			idx.wHub.DoneUpto(lastIndexedTx)
 		}
 
+		idx.rwmutex.RUnlock()
+
 		erroredThisIter := false
 
-		err := idx.store.commitWHub.WaitFor(idx.ctx, lastIndexedTx+1)
-		if idx.ctx.Err() != nil || errors.Is(err, watchers.ErrAlreadyClosed) {
+		err := idx.store.commitWHub.WaitFor(ctx, lastIndexedTx+1)
+		if ctx.Err() != nil || errors.Is(err, watchers.ErrAlreadyClosed) {
 			return
 		}
 		if err != nil {
@@ -501,6 +546,10 @@ func (idx *indexer) doIndexing() {
 			idx.stateCond.Wait()
 		}
 		idx.stateCond.L.Unlock()
+
+		if ctx.Err() != nil {
+			return
+		}
 
 		err = idx.indexSince(lastIndexedTx + 1)
 		if errors.Is(err, ErrAlreadyClosed) || errors.Is(err, tbtree.ErrAlreadyClosed) {
@@ -594,6 +643,15 @@ func (idx *indexer) valBuffer(vLen int) []byte {
 }
 
 func (idx *indexer) indexSince(txID uint64) error {
+	idx.bulkMutex.Lock()
+	defer idx.bulkMutex.Unlock()
+
+	return idx.indexBulkSince(txID, false)
+}
+
+// indexBulkSince requires bulkMutex to be held. When restarting, rwmutex is
+// held as well (by restartIndex) and the index is known to be the current one
+func (idx *indexer) indexBulkSince(txID uint64, restarting bool) error {
 	ctx, cancel := context.WithTimeout(context.Background(), idx.bulkPreparationTimeout)
 	defer cancel()
 
@@ -774,6 +832,22 @@ func (idx *indexer) indexSince(txID uint64) error {
 
 	verifhook.Point("indexer.indexSince.beforeInsert")
 	verifhook.Note("indexer.bulk", txID, txID+uint64(bulkSize-1), [32]byte{})
+
+	if !restarting {
+		// the index may have been replaced while the bulk was being prepared
+		// (restart after a compaction): the bulk is valid only as the
+		// immediate continuation of the index it is inserted into
+		idx.rwmutex.RLock()
+		defer idx.rwmutex.RUnlock()
+
+		if idx.closed {
+			return ErrAlreadyClosed
+		}
+
+		if idx.index.Ts()+1 != txID {
+			return nil
+		}
+	}
 
 	if indexableEntries == 0 {
 		// if there are no entries to be indexed, the logical time in the tree
